@@ -126,9 +126,10 @@ class Geometry:
                 )
 
         else:
-            # Scalar case.
-            if not all([i == j for i, j in zip(fetched_shape, self.num_voxels)]):
-                self.cached_voxel_volume = self.voxel_volume * scaling
+            # Scalar case. Always rescale to the resolution of the fetched data, such
+            # that the cache from a previous call with a different resolution is not
+            # reused (scaling is 1 for data in the native resolution).
+            self.cached_voxel_volume = self.voxel_volume * scaling
 
         # ! ---- Perform spatial integration
         if isinstance(data, np.ndarray):
